@@ -155,6 +155,12 @@ class ConcreteSym:
         if all(conds):
             self.cover(tag)
 
+    def model_str_repr(self):
+        pass
+
+    def model_int_or(self):
+        pass
+
     def note(self, key, value):
         self.notes[key] = value
 
